@@ -14,6 +14,11 @@
 (*   try(body, handlers, orelse, final)                                    *)
 (*   with(supp, body)          -- context manager that may (supp) or may   *)
 (*                                not swallow exceptions                   *)
+(*   defg(v, id)   -- `def g<id>(): v`            nested function reading v *)
+(*   defn(v, id)   -- `def g<id>(): nonlocal v; v = <id>`   ... assigning v *)
+(*   callg(t, v, w, id) -- `g<t>()`: a call of the nested function defined  *)
+(*                    by statement t (w: it is a defn); the use / the      *)
+(*                    assignment inside g<t> happens here, at the call     *)
 (* An environment maps each variable to the id of the assignment that      *)
 (* last bound it, 0 = unbound.  Exec(block, envs, mode) returns, for the   *)
 (* set of environments in which the block may start, the environments of   *)
@@ -75,6 +80,16 @@ ExecStmt(s, envs, mode) ==
                                IF envs = {} THEN {} ELSE {<<0 - s.id, 0>>})
       [] s.k = "use"    -> Out(envs, {}, {}, {}, pre, {<<s.id, e[s.v]>> : e \in envs})
       [] s.k = "call"   -> Out(envs, {}, {}, {}, envs, {})
+      \* defining a nested function neither reads nor binds the variable
+      [] s.k \in {"defg", "defn"} -> Out(envs, {}, {}, {}, pre, {})
+      [] s.k = "callg" ->
+            IF s.w
+            THEN LET asg == {[e EXCEPT ![s.v] = s.t] : e \in envs}
+                 IN Out(asg, {}, {}, {}, IF MayRaiseAnywhere(mode) THEN envs \cup asg ELSE {},
+                        IF envs = {} THEN {} ELSE {<<0 - s.t, 0>>})
+            ELSE LET bound == {e \in envs : e[s.v] # Unbound}       \* reading an unbound cell raises NameError
+                 IN Out(bound, {}, {}, {}, IF MayRaiseAnywhere(mode) THEN envs ELSE envs \ bound,
+                        {<<s.t, e[s.v]>> : e \in envs})
       [] s.k = "return" -> Out({}, {}, {}, envs, pre, {})
       [] s.k = "raise"  -> Out({}, {}, {}, {}, envs, {})
       [] s.k = "break"  -> Out({}, envs, {}, {}, pre, {})
